@@ -42,6 +42,13 @@ type char struct {
 	id          key.TargetID
 	info        info.Character
 	passiveFlag bool
+
+	// talent state (per character instance)
+	hertaCountInsert int
+	hertaCount       int
+	hertaCountATK    int
+	// whether or not a given target is on cooldown for the purposes of herta's talent
+	passiveCooldowns map[key.TargetID]bool
 }
 
 func NewInstance(engine engine.Engine, id key.TargetID, charInfo info.Character) info.CharInstance {
@@ -50,6 +57,8 @@ func NewInstance(engine engine.Engine, id key.TargetID, charInfo info.Character)
 		id:          id,
 		info:        charInfo,
 		passiveFlag: false,
+
+		passiveCooldowns: make(map[key.TargetID]bool),
 	}
 
 	c.initTalent()
